@@ -203,12 +203,36 @@ def value_mutated_after(fi: FuncInfo, store: ast.stmt, value: ast.expr | None) -
             n = g.node_of(c)
             if n is not None and n.id in after:
                 out.append(c)
+    # lazy initialisation of a memo table (`self.memo = table = {}` ... `table[key] = value`): a single-key store through the alias is the same
+    # atomic entry publish as `self.memo[key] = value` and is classified as a setitem site of its own
+    empty_table = _is_empty_container(_alias_value(fi, value))
     for st, tgt, _ in stores(fi.node):
         if isinstance(tgt, (ast.Subscript, ast.Attribute)) and root_name(tgt) in names and not is_self_attr(tgt):
+            if empty_table and isinstance(tgt, ast.Subscript) and isinstance(tgt.value, ast.Name) and isinstance(st, ast.Assign):
+                continue
             n = g.node_of(st)
             if n is not None and n.id in after and st is not store:
                 out.append(st)
     return out
+
+
+def _is_empty_container(v: ast.expr | None) -> bool:
+    if isinstance(v, ast.Dict):
+        return not v.keys
+    if isinstance(v, (ast.List, ast.Set)):
+        return not v.elts
+    return isinstance(v, ast.Call) and unparse(v.func) in ("dict", "list", "set") and not v.args and not v.keywords
+
+
+def _alias_value(fi: FuncInfo, value: ast.expr | None) -> ast.expr | None:
+    """The fresh container a stored local was created as (``table = {}`` ... ``self.memo = table``)."""
+    if isinstance(value, ast.Name):
+        defs = [v for st, tgt, v in stores(fi.node) if isinstance(tgt, ast.Name) and tgt.id == value.id and v is not None and isinstance(st, (ast.Assign, ast.AnnAssign))]
+        fresh = [v for v in defs if _is_empty_container(v)]
+        others = [v for v in defs if not _is_empty_container(v) and not _shared_root(v, {}, {})]
+        if fresh and not others:
+            return fresh[0]
+    return value
 
 
 def self_reads(fi: FuncInfo, seen: set[str] | None = None) -> set[str]:
